@@ -201,7 +201,43 @@ func TestC06_SessionBehindHandshake(t *testing.T) {
 				rt.Fatalf("message %d behind the handshake: got type=%v n=%d err=%v %x.., want binary=%v %d bytes %x..; %s", i, r.mt, r.n, r.err, head(buf[:max(r.n, 0)], 8), m.Binary, len(m.Payload), head(m.Payload, 8), desc)
 			}
 		}
+		// epilogue (asynchronous API): the maximum message size is raised while a read is waiting on the transport - a
+		// setting, not a message - and the next message must still reach that read unchanged
+		raised := 0
+		if async && rapid.Bool().Draw(rt, "raiseMaxWhileReading") {
+			raised = rapid.SampledFrom([]int{5000, 8192, 70000, 1 << 20}).Draw(rt, "newMax")
+			nmsg := rapid.IntRange(1, 3).Draw(rt, "afterRaise")
+			for k := 0; k < nmsg; k++ {
+				m := wsMessage{Binary: rapid.Bool().Draw(rt, "rbin"), Payload: genPayload(rt, 300, "raised.")}
+				got := false
+				var rn int
+				var rmt websocket.MessageType
+				var rerr error
+				s.AsyncNextMessage(buf, func(err error, n int, mt websocket.MessageType) { got, rerr, rn, rmt = true, err, n, mt })
+				if got {
+					rt.Fatalf("a read completed (%v, n=%d) although the server has sent nothing more; %s", rerr, rn, desc)
+				}
+				if k == 0 {
+					s.SetMaxMessageSize(raised)
+				}
+				_, _ = sr.conn.Write(rfc6455.Encode(rfc6455.Frame{Fin: true, Opcode: m.opcode(), Payload: m.Payload, LenBytes: -1}))
+				deadline := time.Now().Add(vt.Patience(6 * time.Second))
+				for !got {
+					_ = ioc.RunOneFor(2 * time.Millisecond)
+					if time.Now().After(deadline) {
+						vt.TimedOut()
+						rt.Fatalf("message %d sent after SetMaxMessageSize(%d) was called with a read pending never arrived; %s", k, raised, desc)
+					}
+				}
+				if rerr != nil || (rmt == websocket.TypeBinary) != m.Binary || !bytes.Equal(buf[:max(rn, 0)], m.Payload) {
+					rt.Fatalf("message %d after SetMaxMessageSize(%d) with a read pending: got type=%v n=%d err=%v %x.., want binary=%v %d bytes %x..; %s", k, raised, rmt, rn, rerr, head(buf[:max(rn, 0)], 8), m.Binary, len(m.Payload), head(m.Payload, 8), desc)
+				}
+			}
+		}
 		cls := []string{"behind-handshake"}
+		if raised > 0 {
+			cls = append(cls, "max-size-raised-with-a-read-pending")
+		}
 		inTerm := false
 		for _, e := range p.EndCuts {
 			if e >= -3 && e <= -1 {
